@@ -9,7 +9,7 @@ RULE = ("call histories on every estimator: two fresh estimators per case; (a) d
         "vectors, list-of-array distributions, CSC/CSR matrices with unsorted indices or explicit zeros) before and "
         "after fit / fit_transform / transform; (b) history fit -> transform(X1) -> transform(X2) -> transform(X1) "
         "-> transform(X2) compared with single calls on a second estimator fitted the same way; (c) two fits with the "
-        "same integer random_state; (d) listing of a private temp directory before/after every call, including "
+        "same integer random_state - two estimators, and one estimator fitted twice; (d) listing of a private temp directory before/after every call, including "
         "blocked (memory_size tiny) optimal-transport fits in which the k-th SVD / block computation is made to raise "
         "(fault injected at every block index). Non-trivial = a constructor object or an aliasing-prone input "
         "format is present, or a fault is injected, or the history has >= 4 calls.")
@@ -62,6 +62,15 @@ def _variant(case, rng):
         c["fmt"] = rng.choice(["csr", "csc_unsorted", "csc", "coo", "dense"])
     if k == "rowdenoise":
         c["fmt"] = rng.choice(["csr", "csr_explicit_zero", "csc"])
+    if k == "countcompress" and rng.random() < 0.6:
+        # many more features than components and one power iteration: the randomised SVD then really depends on
+        # its random stream (on a 6 x 5 matrix it converges to the exact SVD whatever the stream)
+        nr, nc = rng.randint(25, 40), rng.randint(15, 25)
+        c["X"] = [[rng.choice([0, 0, 0, 1, 2, 5, 9]) for _ in range(nc)] for _ in range(nr)]
+        for i in range(nr):
+            c["X"][i][rng.randrange(nc)] += 1
+        c["Xt"] = [[rng.choice([0, 1, 3]) for _ in range(nc)] for _ in range(3)] + [[1] * nc]
+        p["n_components"], p["n_iter"] = 4, rng.choice([0, 1])
     if k == "wasserstein":
         c["input_method"] = rng.choice(["spmatrix", "lil", "lil"])
         if rng.random() < 0.6:
@@ -323,6 +332,12 @@ def _run(case, out, priv):
         # two fits with the same integer seed on the same data: c and d
         r, e3 = _call(out, priv, "seeded transform(X)", watched, lambda: c.transform(inX, **kwX))
         out["seeded_x"] = {"exc": e3} if e3 else E.canon(r)
+        # ... and two fits of one and the same estimator object (d is fitted already)
+        params_before = repr(sorted((k, repr(v)) for k, v in d.get_params(deep=False).items() if k != "token_dictionary"))
+        _, e4 = _call(out, priv, "second fit of the same estimator", watched, lambda: d.fit(inX, **kwX))
+        r, e5 = _call(out, priv, "transform(X) after the second fit", watched, lambda: d.transform(inX, **kwX))
+        out["refit_x"] = {"exc": e4 or e5} if (e4 or e5) else E.canon(r)
+        out["params_kept"] = params_before == repr(sorted((k, repr(v)) for k, v in d.get_params(deep=False).items() if k != "token_dictionary"))
     # the caller's dictionary as the model sees it (for the correspondence)
     if "token_dictionary" in ctor and case["params"].get("mask_string"):
         out["dict_before"] = sorted(case["ctor_dict"]["token_dictionary"].items(), key=lambda kv: kv[1])
@@ -393,6 +408,13 @@ def oracle(case, outs):
                     df = E.approx_equal(a, b, **_tol(kind))
                     if df:
                         fails.append(_F(f"c13.{kind}.history-changes-output", f"call {idx + 1} of the history differs from a single call: {df}"))
+    if "refit_x" in o and "exc" not in o["single_x"]:
+        if "exc" in o["refit_x"]:
+            fails.append(_F(f"c13.{kind}.refit-raises", f"second fit of the same estimator on the same data: {o['refit_x']['exc']}"))
+        else:
+            df = E.approx_equal(o["refit_x"], o["single_x"], rtol=1e-9, atol=1e-9)
+            if df:
+                fails.append(_F(f"c13.{kind}.same-seed-refit-differs", f"one estimator (integer random_state) fitted twice on the same data gives two models: {df}"))
     if "seeded_x" in o and "exc" not in o["seeded_x"] and "exc" not in o["single_x"]:
         df = E.approx_equal(o["seeded_x"], o["single_x"], rtol=1e-9, atol=1e-9)
         if df:
